@@ -10,6 +10,7 @@ CONSTANTS
   MaxRules = 2
   MaxStatus = 1
   MaxRuns = 1
+  MaxReent = 0
   RulesInRun = FALSE
   Export = TRUE
   Variant = "asRequired"
